@@ -359,7 +359,7 @@ theorem wp_block {C : Prop} {d : DState} {Γ : Cnf} {T F : Nat → Bool} {dirty 
   rfl
 
 /-- a SAT call of the search under `must ∧ ¬selector` -/
-theorem wp_dsolve {d : DState} {sel : Nat} {Γ₀ : Cnf} {w : World} {blocked : List (List Nat)}
+theorem wp_dsolve {C : Prop} {d : DState} {sel : Nat} {Γ₀ : Cnf} {w : World} {blocked : List (List Nat)}
     (h : SInv d sel Γ₀ w blocked) {m : DMEC} (hadd : m.additional = d.enc.assumptions) (must : List Nat)
     (Q : Option (List Nat) → World → Prop)
     (hsat : ∀ ext w', SInv d sel Γ₀ w' blocked → d.af.g.Complete (ofList ext) →
@@ -368,7 +368,7 @@ theorem wp_dsolve {d : DState} {sel : Nat} {Γ₀ : Cnf} {w : World} {blocked : 
     (hunsat : ∀ w', SInv d sel Γ₀ w' blocked →
       (∀ T, d.af.g.Complete T → (∀ a ∈ must, d.af.hasId a = true → T a = true) → ∃ E ∈ blocked, SubL T E) →
       Q none w') :
-    wp True (m.solve d (inLits d must ++ [nl sel])) w Q := by
+    wp C (m.solve d (inLits d must ++ [nl sel])) w Q := by
   obtain ⟨_, T', F', hI⟩ := h.clean
   unfold DMEC.solve
   simp only [Prog.bind_eq, hadd]
@@ -377,9 +377,9 @@ theorem wp_dsolve {d : DState} {sel : Nat} {Γ₀ : Cnf} {w : World} {blocked : 
   · rintro mdl ⟨_, hΓ, hA⟩
     obtain ⟨h1, h2, h3⟩ := search_sat h must hΓ hA
     have hS := ext_eq_setOf hI mdl
-    show wp True ((needLabels d.af (d.enc.extension mdl)).bind _) _ Q
+    show wp C ((needLabels d.af (d.enc.extension mdl)).bind _) _ Q
     rw [wp_bind]
-    apply wp_needLabels _ _ _ _ trivial
+    apply wp_needLabels _ _ _ _ (argsWhere_live hI mdl _)
     intro _ _
     refine hsat _ _ (h.congr_db (W0_onSolve h.w0 _ _ _) (by simp)) (by rw [hS]; exact h1) ?_ ?_ (by rw [hS]; exact h3)
     · intro a ha
@@ -395,6 +395,106 @@ theorem wp_dsolve {d : DState} {sel : Nat} {Γ₀ : Cnf} {w : World} {blocked : 
     exact search_unsat h must hun hT hmust
 
 /-! ## the search: `compute_next` -/
+
+/-! ## counting the sets of arguments that are not yet blocked -/
+
+theorem countP_lt_of_imp {α : Type} {p q : α → Bool} : ∀ {l : List α}, (∀ x ∈ l, p x = true → q x = true) →
+    ∀ {x : α}, x ∈ l → q x = true → p x = false → l.countP p < l.countP q
+  | [], _, _, hx, _, _ => by cases hx
+  | a :: t, h, x, hx, hq, hp => by
+    have hle : t.countP p ≤ t.countP q :=
+      List.countP_mono_left (fun y hy => h y (List.mem_cons_of_mem _ hy))
+    rw [List.countP_cons, List.countP_cons]
+    rcases List.mem_cons.1 hx with rfl | hx
+    · simp only [hq, hp, if_true, Bool.false_eq_true, if_false]; omega
+    · have := countP_lt_of_imp (fun y hy => h y (List.mem_cons_of_mem _ hy)) hx hq hp
+      have h1 := h a List.mem_cons_self
+      cases hpa : p a
+      · simp only [Bool.false_eq_true, if_false]; omega
+      · simp only [h1 hpa, if_true]; omega
+
+/-- all Boolean vectors of a given length -/
+def allVecs : Nat → List (List Bool)
+  | 0 => [[]]
+  | k + 1 => (allVecs k).map (fun v => false :: v) ++ (allVecs k).map (fun v => true :: v)
+
+theorem allVecs_length : ∀ k, (allVecs k).length = 2 ^ k
+  | 0 => rfl
+  | k + 1 => by
+    simp only [allVecs, List.length_append, List.length_map, allVecs_length k]
+    rw [Nat.pow_succ]; omega
+
+theorem mem_allVecs : ∀ (v : List Bool), v ∈ allVecs v.length
+  | [] => by simp [allVecs]
+  | b :: v => by
+    have := mem_allVecs v
+    simp only [List.length_cons, allVecs, List.mem_append, List.mem_map]
+    cases b
+    · exact Or.inl ⟨v, this, rfl⟩
+    · exact Or.inr ⟨v, this, rfl⟩
+
+/-- the set described by `v` (restricted to the ids below `L`) lies inside `E` -/
+def vecSub (L : Nat) (v : List Bool) (E : List Nat) : Bool :=
+  (List.range L).all (fun i => !(v.getD i false) || E.contains i)
+
+def vecOf (L : Nat) (ext : List Nat) : List Bool := (List.range L).map (fun i => ext.contains i)
+
+theorem vecOf_getD (L : Nat) (ext : List Nat) {i : Nat} (hi : i < L) : (vecOf L ext).getD i false = ext.contains i := by
+  unfold vecOf
+  rw [List.getD_eq_getElem?_getD, List.getElem?_map, List.getElem?_range hi]
+  rfl
+
+theorem vecSub_vecOf (L : Nat) (ext E : List Nat) :
+    vecSub L (vecOf L ext) E = true ↔ ∀ i, i < L → i ∈ ext → i ∈ E := by
+  unfold vecSub
+  rw [List.all_eq_true]
+  constructor
+  · intro h i hi hie
+    have := h i (List.mem_range.2 hi)
+    rw [vecOf_getD L ext hi] at this
+    simpa [hie] using this
+  · intro h i hi
+    have hi' := List.mem_range.1 hi
+    rw [vecOf_getD L ext hi']
+    cases hc : ext.contains i
+    · rfl
+    · simpa using h i hi' (List.contains_iff_mem.1 hc)
+
+/-- the number of subsets of `{0, …, L-1}` that lie in no blocked set -/
+def free (L : Nat) (blocked : List (List Nat)) : Nat :=
+  (allVecs L).countP (fun v => blocked.all (fun E => !vecSub L v E))
+
+theorem free_le (L : Nat) (blocked : List (List Nat)) : free L blocked ≤ 2 ^ L := by
+  unfold free
+  rw [← allVecs_length L]
+  exact List.countP_le_length
+
+theorem free_cons_le (L : Nat) (E : List Nat) (blocked : List (List Nat)) : free L (E :: blocked) ≤ free L blocked := by
+  unfold free
+  apply List.countP_mono_left
+  intro v _ hv
+  simp only [List.all_cons, Bool.and_eq_true] at hv
+  exact hv.2
+
+/-- blocking a set that lies in no blocked set makes the count drop -/
+theorem free_cons_lt (L : Nat) (ext : List Nat) (blocked : List (List Nat)) (hlt : ∀ a ∈ ext, a < L)
+    (hfresh : ∀ B ∈ blocked, ¬ (∀ a ∈ ext, a ∈ B)) : free L (ext :: blocked) < free L blocked := by
+  unfold free
+  have hlen : (vecOf L ext).length = L := by simp [vecOf]
+  refine countP_lt_of_imp (x := vecOf L ext) ?_ (by have := mem_allVecs (vecOf L ext); rwa [hlen] at this) ?_ ?_
+  · intro v _ hv
+    simp only [List.all_cons, Bool.and_eq_true] at hv
+    exact hv.2
+  · rw [List.all_eq_true]
+    intro B hB
+    cases hs : vecSub L (vecOf L ext) B
+    · rfl
+    · exact absurd (fun a ha => (vecSub_vecOf L ext B).1 hs a (hlt a ha) ha) (hfresh B hB)
+  · have : vecSub L (vecOf L ext) ext = true := (vecSub_vecOf L ext ext).2 (fun i _ h => h)
+    simp [this]
+
+/-- the set lies in no blocked set -/
+def Fresh (cur : List Nat) (blocked : List (List Nat)) : Prop := ∀ B ∈ blocked, ¬ (∀ a ∈ cur, a ∈ B)
 
 /-- every blocked set lies inside a complete extension that contains the queried argument -/
 def AllTopD (g : G) (arg : Nat) (blocked : List (List Nat)) : Prop :=
@@ -429,11 +529,11 @@ theorem DSk.allTop_after_block {d : DState} {sel : Nat} {Γ₀ : Cnf} {m : DMEC}
     · exact ⟨_, h.cur_co, fun a ha => (ofList_mem _ a).2 (hsub a ha), hhit⟩
 
 /-- a fresh search (`¬selector` alone) when every blocked set has a top containing the argument -/
-theorem wp_dNewSearch {d : DState} {sel : Nat} {Γ₀ : Cnf} {w : World} {blocked : List (List Nat)} {arg : Nat}
+theorem wp_dNewSearch {C : Prop} {d : DState} {sel : Nat} {Γ₀ : Cnf} {w : World} {blocked : List (List Nat)} {arg : Nat}
     (hS : SInv d sel Γ₀ w blocked) {m : DMEC} (hsel : m.sel = sel) (hadd : m.additional = d.enc.assumptions)
     (htop : AllTopD d.af.g arg blocked) :
-    wp True (m.newSearch d) w (fun m' w' => m'.sel = sel ∧ m'.additional = d.enc.assumptions ∧
-      ((m'.state = .intermediate ∧ DSk d sel Γ₀ m' w' blocked arg) ∨
+    wp C (m.newSearch d) w (fun m' w' => m'.sel = sel ∧ m'.additional = d.enc.assumptions ∧
+      ((m'.state = .intermediate ∧ DSk d sel Γ₀ m' w' blocked arg ∧ Fresh m'.cur blocked) ∨
        (m'.state = .none ∧ SInv d sel Γ₀ w' blocked ∧ ∀ P, d.af.g.Preferred P → P arg = true))) := by
   unfold DMEC.newSearch
   simp only [Prog.bind_eq]
@@ -442,11 +542,11 @@ theorem wp_dNewSearch {d : DState} {sel : Nat} {Γ₀ : Cnf} {w : World} {blocke
   rw [happ]
   apply wp_dsolve hS hadd []
   · intro ext w' hS' hco hlive _ hblk
-    refine ⟨hsel, hadd, Or.inl ⟨rfl, hS', hlive, hco, ?_, ?_⟩⟩
+    have hfresh : Fresh ext blocked := fun B hB hsub =>
+      hblk B hB (fun a ha => hsub a ((ofList_mem _ a).1 ha))
+    refine ⟨hsel, hadd, Or.inl ⟨rfl, ⟨hS', hlive, hco, ?_, ?_⟩, hfresh⟩⟩
     · intro B hB
-      right
-      intro hsub
-      exact hblk B hB (fun a ha => hsub a ((ofList_mem _ a).1 ha))
+      exact Or.inr (hfresh B hB)
     · intro B hB; exact Or.inl (htop B hB)
   · intro w' hS' hun
     refine ⟨hsel, hadd, Or.inr ⟨rfl, hS', ?_⟩⟩
@@ -457,12 +557,12 @@ theorem wp_dNewSearch {d : DState} {sel : Nat} {Γ₀ : Cnf} {w : World} {blocke
     exact hP.2 D hD.1 hPD arg hhit
 
 /-- the increase step from an intermediate set -/
-theorem wp_dIncrease {d : DState} {sel : Nat} {Γ₀ : Cnf} {m : DMEC} {w : World} {blocked : List (List Nat)}
+theorem wp_dIncrease {C : Prop} {d : DState} {sel : Nat} {Γ₀ : Cnf} {m : DMEC} {w : World} {blocked : List (List Nat)}
     {arg : Nat} (h : DSk d sel Γ₀ m w blocked arg) (hsel : m.sel = sel)
     (hadd : m.additional = d.enc.assumptions) (hst : m.state = .intermediate)
     (hfin : ∃ n, ∀ a, d.af.g.live a = true → a < n) :
-    wp True (m.computeNext d) w (fun m' w' => m'.sel = sel ∧ m'.additional = d.enc.assumptions ∧
-      ((m'.state = .intermediate ∧ DSk d sel Γ₀ m' w' (m.cur :: blocked) arg) ∨
+    wp C (m.computeNext d) w (fun m' w' => m'.sel = sel ∧ m'.additional = d.enc.assumptions ∧
+      ((m'.state = .intermediate ∧ DSk d sel Γ₀ m' w' (m.cur :: blocked) arg ∧ Fresh m'.cur (m.cur :: blocked)) ∨
        (m'.state = .maximal ∧ m'.cur = m.cur ∧ DSk d sel Γ₀ m' w' (m.cur :: blocked) arg ∧
          d.af.g.Preferred (ofList m.cur)))) := by
   obtain ⟨_, T', F', hI⟩ := h.sinv.clean
@@ -472,11 +572,11 @@ theorem wp_dIncrease {d : DState} {sel : Nat} {Γ₀ : Cnf} {m : DMEC} {w : Worl
   rw [wp_bind, wp_block hI, wp_bind, hsel]
   apply wp_dsolve (h.sinv.block m.cur) hadd m.cur
   · intro ext w' hS' hco hlive hmust hblk
-    refine ⟨rfl, hadd, Or.inl ⟨rfl, hS', hlive, hco, ?_, ?_⟩⟩
+    have hfresh : Fresh ext (m.cur :: blocked) := fun B hB hsub =>
+      hblk B hB (fun a ha => hsub a ((ofList_mem _ a).1 ha))
+    refine ⟨rfl, hadd, Or.inl ⟨rfl, ⟨hS', hlive, hco, ?_, ?_⟩, hfresh⟩⟩
     · intro B hB
-      right
-      intro hsub
-      exact hblk B hB (fun a ha => hsub a ((ofList_mem _ a).1 ha))
+      exact Or.inr (hfresh B hB)
     · intro B hB
       rcases List.mem_cons.1 hB with rfl | hB
       · exact Or.inr (fun a ha => hmust a ha (h.cur_live a ha))
@@ -505,55 +605,94 @@ theorem wp_dIncrease {d : DState} {sel : Nat} {Γ₀ : Cnf} {m : DMEC} {w : Worl
       · exact Or.inr (fun a ha => ha)
       · exact h.top B hB
 
-/-- the states in which the loop starts an iteration -/
-def DL (d : DState) (sel : Nat) (Γ₀ : Cnf) (arg : Nat) (m : DMEC) (w : World) : Prop :=
+/-- the number of iterations the loop may still need: three per set of arguments not yet blocked -/
+def budget (d : DState) (blocked : List (List Nat)) : Nat := 3 * free d.af.labels.length blocked
+
+theorem budget_le (d : DState) (blocked : List (List Nat)) : budget d blocked ≤ 3 * 2 ^ d.af.labels.length := by
+  unfold budget
+  have := free_le d.af.labels.length blocked
+  omega
+
+theorem budget_cons_le (d : DState) (E : List Nat) (blocked : List (List Nat)) :
+    budget d (E :: blocked) ≤ budget d blocked := by
+  unfold budget
+  have := free_cons_le d.af.labels.length E blocked
+  omega
+
+theorem budget_cons_lt {d : DState} {cur : List Nat} {blocked : List (List Nat)}
+    (hlive : ∀ a ∈ cur, d.af.hasId a = true) (hfresh : Fresh cur blocked) :
+    budget d (cur :: blocked) + 3 ≤ budget d blocked := by
+  unfold budget
+  have := free_cons_lt d.af.labels.length cur blocked
+    (fun a ha => by obtain ⟨l, hl⟩ := hasId_iff.1 (hlive a ha); exact live_lt hl) hfresh
+  omega
+
+/-- the states in which the loop starts an iteration; `n` bounds the number of iterations still
+needed (each blocked set is a set of arguments of the framework and a set is blocked at most once
+while it lies in no blocked set, so the search cannot run for ever) -/
+def DL (d : DState) (sel : Nat) (Γ₀ : Cnf) (arg : Nat) (m : DMEC) (w : World) (n : Nat) : Prop :=
   m.sel = sel ∧ m.additional = d.enc.assumptions ∧
-  ((m.state = .init ∧ SInv d sel Γ₀ w []) ∨
-   (m.state = .intermediate ∧ ∃ blocked, DSk d sel Γ₀ m w blocked arg) ∨
-   (m.state = .justDiscarded ∧ ∃ blocked, SInv d sel Γ₀ w blocked ∧ AllTopD d.af.g arg blocked) ∨
-   (m.state = .maximal ∧ ∃ blocked, DSk d sel Γ₀ m w blocked arg ∧ ofList m.cur arg = true))
+  ((m.state = .init ∧ SInv d sel Γ₀ w [] ∧ 3 * 2 ^ d.af.labels.length + 2 ≤ n) ∨
+   (m.state = .intermediate ∧ ∃ blocked, DSk d sel Γ₀ m w blocked arg ∧ Fresh m.cur blocked ∧
+      budget d blocked + 1 ≤ n) ∨
+   (m.state = .justDiscarded ∧ ∃ blocked, SInv d sel Γ₀ w blocked ∧ AllTopD d.af.g arg blocked ∧
+      budget d blocked + 2 ≤ n) ∨
+   (m.state = .maximal ∧ ∃ blocked, DSk d sel Γ₀ m w blocked arg ∧ ofList m.cur arg = true ∧
+      budget d blocked + 2 ≤ n))
+
+theorem DL.pos {d : DState} {sel : Nat} {Γ₀ : Cnf} {arg : Nat} {m : DMEC} {w : World} {n : Nat}
+    (h : DL d sel Γ₀ arg m w n) : 1 ≤ n := by
+  obtain ⟨_, _, hcase⟩ := h
+  rcases hcase with ⟨_, _, hn⟩ | ⟨_, _, _, _, hn⟩ | ⟨_, _, _, _, hn⟩ | ⟨_, _, _, _, hn⟩ <;> omega
 
 /-- what `compute_next` leaves -/
-def DAfter (d : DState) (sel : Nat) (Γ₀ : Cnf) (arg : Nat) (m' : DMEC) (w' : World) : Prop :=
+def DAfter (d : DState) (sel : Nat) (Γ₀ : Cnf) (arg : Nat) (m' : DMEC) (w' : World) (n : Nat) : Prop :=
   m'.sel = sel ∧ m'.additional = d.enc.assumptions ∧
-  ((m'.state = .intermediate ∧ ∃ blocked, DSk d sel Γ₀ m' w' blocked arg) ∨
-   (m'.state = .maximal ∧ (∃ blocked, DSk d sel Γ₀ m' w' blocked arg) ∧ d.af.g.Preferred (ofList m'.cur)) ∨
+  ((m'.state = .intermediate ∧ ∃ blocked, DSk d sel Γ₀ m' w' blocked arg ∧ Fresh m'.cur blocked ∧
+      budget d blocked + 2 ≤ n) ∨
+   (m'.state = .maximal ∧ (∃ blocked, DSk d sel Γ₀ m' w' blocked arg ∧ budget d blocked + 3 ≤ n) ∧
+      d.af.g.Preferred (ofList m'.cur)) ∨
    (m'.state = .none ∧ (∃ blocked, SInv d sel Γ₀ w' blocked) ∧ ∀ P, d.af.g.Preferred P → P arg = true))
 
-theorem wp_dNext {d : DState} {sel : Nat} {Γ₀ : Cnf} {arg : Nat} {m : DMEC} {w : World}
-    (hrows : d.af.RowsNodup) (h : DL d sel Γ₀ arg m w) :
-    wp True (m.computeNext d) w (fun m' w' => DAfter d sel Γ₀ arg m' w') := by
+theorem wp_dNext {C : Prop} {d : DState} {sel : Nat} {Γ₀ : Cnf} {arg : Nat} {m : DMEC} {w : World} {n : Nat}
+    (hrows : d.af.RowsNodup) (h : DL d sel Γ₀ arg m w n) :
+    wp C (m.computeNext d) w (fun m' w' => DAfter d sel Γ₀ arg m' w' n) := by
   obtain ⟨hsel, hadd, hcase⟩ := h
-  rcases hcase with ⟨hst, hS⟩ | ⟨hst, blocked, hS⟩ | ⟨hst, blocked, hS, htop⟩ | ⟨hst, blocked, hS, hhit⟩
+  rcases hcase with ⟨hst, hS, hn⟩ | ⟨hst, blocked, hS, hfr, hn⟩ | ⟨hst, blocked, hS, htop, hn⟩ |
+    ⟨hst, blocked, hS, hhit, hn⟩
   · unfold DMEC.computeNext
     rw [hst]
     obtain ⟨hgr, _, hlive⟩ := groundedV_spec d.af.view d.af.g (Store.view_ok d.af hS.st_inv hrows)
-    refine ⟨hsel, hadd, Or.inl ⟨rfl, [], hS, hlive, hgr.1, ?_, ?_⟩⟩
+    have hb := budget_le d []
+    refine ⟨hsel, hadd, Or.inl ⟨rfl, [], ⟨hS, hlive, hgr.1, ?_, ?_⟩, ?_, by omega⟩⟩
+    · intro B hB; cases hB
     · intro B hB; cases hB
     · intro B hB; cases hB
   · have hfin : ∃ n, ∀ a, d.af.g.live a = true → a < n :=
       ⟨d.af.labels.length, fun a ha => by obtain ⟨l, hl⟩ := hasId_iff.1 ha; exact live_lt hl⟩
+    have hb := budget_cons_lt hS.cur_live hfr
     refine wp_mono _ _ _ _ ?_ (wp_dIncrease hS hsel hadd hst hfin)
     rintro m' w' ⟨hsel', hadd', hcase⟩
-    rcases hcase with ⟨hst', hS'⟩ | ⟨hst', hcur, hS', hpref⟩
-    · exact ⟨hsel', hadd', Or.inl ⟨hst', _, hS'⟩⟩
-    · exact ⟨hsel', hadd', Or.inr (Or.inl ⟨hst', ⟨_, hS'⟩, by rw [hcur]; exact hpref⟩)⟩
+    rcases hcase with ⟨hst', hS', hfr'⟩ | ⟨hst', hcur, hS', hpref⟩
+    · exact ⟨hsel', hadd', Or.inl ⟨hst', _, hS', hfr', by omega⟩⟩
+    · exact ⟨hsel', hadd', Or.inr (Or.inl ⟨hst', ⟨_, hS', by omega⟩, by rw [hcur]; exact hpref⟩)⟩
   · unfold DMEC.computeNext
     rw [hst]
     refine wp_mono _ _ _ _ ?_ (wp_dNewSearch hS hsel hadd htop)
     rintro m' w' ⟨hsel', hadd', hcase⟩
-    rcases hcase with ⟨hst', hS'⟩ | ⟨hst', hS', hall⟩
-    · exact ⟨hsel', hadd', Or.inl ⟨hst', _, hS'⟩⟩
+    rcases hcase with ⟨hst', hS', hfr'⟩ | ⟨hst', hS', hall⟩
+    · exact ⟨hsel', hadd', Or.inl ⟨hst', _, hS', hfr', hn⟩⟩
     · exact ⟨hsel', hadd', Or.inr (Or.inr ⟨hst', ⟨_, hS'⟩, hall⟩)⟩
   · obtain ⟨_, T', F', hI⟩ := hS.sinv.clean
+    have hb := budget_cons_le d m.cur blocked
     unfold DMEC.computeNext
     rw [hst]
     simp only [Prog.bind_eq]
     rw [wp_bind, wp_block hI, hsel]
     refine wp_mono _ _ _ _ ?_ (wp_dNewSearch (hS.sinv.block m.cur) hsel hadd (hS.allTop_after_block hhit))
     rintro m' w' ⟨hsel', hadd', hcase⟩
-    rcases hcase with ⟨hst', hS'⟩ | ⟨hst', hS', hall⟩
-    · exact ⟨hsel', hadd', Or.inl ⟨hst', _, hS'⟩⟩
+    rcases hcase with ⟨hst', hS', hfr'⟩ | ⟨hst', hS', hall⟩
+    · exact ⟨hsel', hadd', Or.inl ⟨hst', _, hS', hfr', by omega⟩⟩
     · exact ⟨hsel', hadd', Or.inr (Or.inr ⟨hst', ⟨_, hS'⟩, hall⟩)⟩
 
 /-! ## the loop -/
@@ -612,34 +751,43 @@ def LoopPost (d : DState) (sel : Nat) (Γ₀ : Cnf) (arg : Nat)
    (r.2.1 = false ∧ r.2.2.1 = [] ∧ ∃ e, r.2.2.2.2 = some e ∧ d.af.g.Preferred (ofList e) ∧ arg ∉ e ∧
       ∀ i, r.2.2.2.1[i]? = some true → i ∉ e))
 
-theorem wp_prLoop {d : DState} {sel : Nat} {Γ₀ : Cnf} {arg len : Nat} (hrows : d.af.RowsNodup)
-    (harg : arg < len) : ∀ (fuel : Nat) (m : DMEC) (st : PrSt) (w : World), DL d sel Γ₀ arg m w →
-    wp True (prLoop d arg len fuel m st) w (LoopPost d sel Γ₀ arg)
-  | 0, _, _, _, _ => trivial
-  | fuel + 1, m, st, w, h => by
+/-- **the loop of the preferred solver.**  `n` is the iteration budget of the starting state; the
+model's fuel is never exhausted when it is at least `n` (and when a crash is tolerated, `C`, no fuel
+is needed) -/
+theorem wp_prLoop {C : Prop} {d : DState} {sel : Nat} {Γ₀ : Cnf} {arg len : Nat} (hrows : d.af.RowsNodup)
+    (harg : arg < len) : ∀ (fuel : Nat) (m : DMEC) (st : PrSt) (w : World) (n : Nat), DL d sel Γ₀ arg m w n →
+    (C ∨ n ≤ fuel) → wp C (prLoop d arg len fuel m st) w (LoopPost d sel Γ₀ arg)
+  | 0, _, _, _, n, h, hf => by
+    rcases hf with hc | hn
+    · exact hc
+    · have := h.pos; omega
+  | fuel + 1, m, st, w, n, h, hf => by
+    have hf' : C ∨ n - 1 ≤ fuel := hf.imp id (fun hn => by omega)
     unfold prLoop
     simp only [Prog.bind_eq]
     rw [wp_bind]
     refine wp_mono _ _ _ _ ?_ (wp_dNext hrows h)
     rintro m' w' ⟨hsel, hadd, hcase⟩
-    rcases hcase with ⟨hst, blocked, hS⟩ | ⟨hst, ⟨blocked, hS⟩, hpref⟩ | ⟨hst, hex, hall⟩
+    rcases hcase with ⟨hst, blocked, hS, hfr, hn⟩ | ⟨hst, ⟨blocked, hS, hn⟩, hpref⟩ | ⟨hst, hex, hall⟩
     · -- intermediate
       rw [hst]
       simp only
       obtain ⟨_, T', F', hI⟩ := hS.sinv.clean
       by_cases hc : m'.cur.contains arg = true
-      · rw [if_pos hc, wp_bind, wp_block hI, hsel]
-        exact wp_prLoop hrows harg fuel _ _ _ ⟨rfl, hadd, Or.inr (Or.inr (Or.inl
-          ⟨rfl, m'.cur :: blocked, hS.sinv.block m'.cur, hS.allTop_after_block hc⟩))⟩
+      · have hb := budget_cons_lt hS.cur_live hfr
+        rw [if_pos hc, wp_bind, wp_block hI, hsel]
+        exact wp_prLoop hrows harg fuel _ _ _ (n - 1) ⟨rfl, hadd, Or.inr (Or.inr (Or.inl
+          ⟨rfl, m'.cur :: blocked, hS.sinv.block m'.cur, hS.allTop_after_block hc, by omega⟩))⟩ hf'
       · rw [if_neg hc]
-        exact wp_prLoop hrows harg fuel _ _ _ ⟨hsel, hadd, Or.inr (Or.inl ⟨hst, blocked, hS⟩)⟩
+        exact wp_prLoop hrows harg fuel _ _ _ (n - 1)
+          ⟨hsel, hadd, Or.inr (Or.inl ⟨hst, blocked, hS, hfr, by omega⟩)⟩ hf'
     · -- maximal
       rw [hst]
       simp only
       by_cases hm : (boolVec len m'.cur).getD arg false = true
       · rw [if_neg (by rw [hm]; simp)]
-        exact wp_prLoop hrows harg fuel _ _ _ ⟨hsel, hadd, Or.inr (Or.inr (Or.inr
-          ⟨hst, blocked, hS, (ofList_mem _ _).2 ((boolVec_getD _ _ _).1 hm).1⟩))⟩
+        exact wp_prLoop hrows harg fuel _ _ _ (n - 1) ⟨hsel, hadd, Or.inr (Or.inr (Or.inr
+          ⟨hst, blocked, hS, (ofList_mem _ _).2 ((boolVec_getD _ _ _).1 hm).1, by omega⟩))⟩ hf'
       · have hm' : (boolVec len m'.cur).getD arg false = false := by
           cases hh : (boolVec len m'.cur).getD arg false
           · rfl
@@ -687,9 +835,10 @@ theorem mem_boolLabels (d : DState) (v : List Bool) (l : Nat) :
   · rintro ⟨i, hm, hlab⟩
     exact ⟨(true, i), List.mem_zipIdx_iff_getElem?.2 hm, by simpa using hlab⟩
 
-theorem wp_prSkepSolve (fuel : Nat) {d : DState} {w : World} (h : QInv .PR d w)
-    (hsync : d.af = d.pending) (hnext : d.next = d.buffer.length) {l id : Nat} (hl : d.pending.Live id l) :
-    wp True (prSkepSolve fuel d l) w (fun r w' => QInv .PR r.1 w' ∧ r.1.pending = d.pending ∧
+theorem wp_prSkepSolve {C : Prop} (fuel : Nat) {d : DState} {w : World} (h : QInv .PR d w)
+    (hsync : d.af = d.pending) (hnext : d.next = d.buffer.length) {l id : Nat} (hl : d.pending.Live id l)
+    (hfuel : C ∨ 3 * 2 ^ d.pending.labels.length + 2 ≤ fuel) :
+    wp C (prSkepSolve fuel d l) w (fun r w' => QInv .PR r.1 w' ∧ r.1.pending = d.pending ∧
       SkepOK .PR d.pending l r.2) := by
   have hpinv := h.pend_inv
   have hainv := h.dinv.af_inv
@@ -712,7 +861,7 @@ theorem wp_prSkepSolve (fuel : Nat) {d : DState} {w : World} (h : QInv .PR d w)
     have := h.dinv.w0.db_le c hc lit hlit
     omega
   refine wp_mono _ _ _ _ ?_ (wp_prLoop (sel := w.nVarsOf 0 + 1) (Γ₀ := w.db 0) hrows harg fuel _ _ _
-    ⟨rfl, rfl, Or.inl ⟨rfl, hS0⟩⟩)
+    (3 * 2 ^ d.af.labels.length + 2) ⟨rfl, rfl, Or.inl ⟨rfl, hS0, Nat.le_refl _⟩⟩ (by rw [hsync]; exact hfuel))
   rintro ⟨m, res, accB, refB, ext⟩ w2 ⟨hsel, ⟨blocked, hS⟩, hres⟩
   simp only at hsel hres
   simp only
@@ -777,6 +926,35 @@ theorem wp_prSkepSolve (fuel : Nat) {d : DState} {w : World} (h : QInv .PR d w)
     · refine ⟨fun hf => ?_, fun _ => ⟨e', he', (hprefeq _).2 hpref, hnot⟩⟩
       rw [hr] at hf; cases hf
 
+/-- the skeptical query of the preferred solver, with what a `crash` node counts as left open: when
+crashes are not tolerated (`C = False`) the fuel of the model's loop must cover the iteration bound -/
+theorem wp_prSkepQuery_gen {C : Prop} (fuel : Nat) {d : DState} {w : World} (h : QInv .PR d w) {l id : Nat}
+    (hl : d.pending.Live id l) (hfuel : C ∨ 3 * 2 ^ d.pending.labels.length + 2 ≤ fuel) :
+    wp C (prSkepQuery fuel d l) w (fun r w' => QInv .PR r.1 w' ∧ r.1.pending = d.pending ∧
+      SkepOK .PR d.pending l r.2) := by
+  rw [prSkepQuery_eq]
+  split
+  · rename_i b e hc
+    obtain ⟨hb, c, hcm, acc, ref, hcc, hlref⟩ := cachedSkep_spec _ _ _ _ hc
+    subst hb
+    apply wp_fromCache h hcm hcc
+    refine ⟨h, rfl, ?_⟩
+    have hsound := h.cache c hcm
+    have : IsExt .PR d.pending.g (ofList e) ∧ (∀ l ∈ ref, ∀ id, d.pending.Live id l → id ∉ e) := by
+      rcases hcc with rfl | rfl
+      · exact ⟨(hsound e rfl).1, (hsound e rfl).2.2⟩
+      · exact ⟨(hsound e rfl).1, (hsound e rfl).2.2⟩
+    intro id' hl'
+    exact ⟨fun hf => by simp at hf, fun _ => ⟨e, rfl, this.1, this.2 l hlref id' hl'⟩⟩
+  · rw [wp_bind]
+    refine wp_mono _ _ _ _ ?_ (wp_updateEncoding h.dinv)
+    rintro d' w' ⟨hd, haf, hp, hbuf, hn⟩
+    have hq := QInv_of_update h hd hp hbuf
+    have := wp_prSkepSolve (C := C) fuel hq (by rw [haf, hp]) (by rw [hn, hbuf]) (l := l) (id := id)
+      (by rw [hp]; exact hl) (by rw [hp]; exact hfuel)
+    rw [hp] at this
+    exact this
+
 /-- **the preferred dynamic solver**: a skeptical query answers for the pending framework, keeps the
 solver invariant and caches a true computation.  (`hb` is implied by `h`, whose `DInv.w0` says that the
 shared solver exists and that the world is bounded; it is kept so that the statement reads on its own.) -/
@@ -785,33 +963,7 @@ theorem wp_prSkepQuery (fuel : Nat) {d : DState} {w : World} (h : QInv .PR d w) 
     wp True (prSkepQuery fuel d l) w (fun r w' => QInv .PR r.1 w' ∧ w'.Bounded ∧ r.1.pending = d.pending ∧
       SkepOK .PR d.pending l r.2) := by
   have _ := hb
-  have key : wp True (prSkepQuery fuel d l) w (fun r w' => QInv .PR r.1 w' ∧ r.1.pending = d.pending ∧
-      SkepOK .PR d.pending l r.2) := by
-    rw [prSkepQuery_eq]
-    split
-    · rename_i b e hc
-      unfold fromCache
-      rw [wp_bind]
-      apply wp_needLabels _ _ _ _ trivial
-      intro _ _
-      refine ⟨h, rfl, ?_⟩
-      obtain ⟨hb, c, hcm, acc, ref, hcc, hlref⟩ := cachedSkep_spec _ _ _ _ hc
-      subst hb
-      have hsound := h.cache c hcm
-      have : IsExt .PR d.pending.g (ofList e) ∧ (∀ l ∈ ref, ∀ id, d.pending.Live id l → id ∉ e) := by
-        rcases hcc with rfl | rfl
-        · exact ⟨(hsound e rfl).1, (hsound e rfl).2.2⟩
-        · exact ⟨(hsound e rfl).1, (hsound e rfl).2.2⟩
-      intro id' hl'
-      exact ⟨fun hf => by simp at hf, fun _ => ⟨e, rfl, this.1, this.2 l hlref id' hl'⟩⟩
-    · rw [wp_bind]
-      refine wp_mono _ _ _ _ ?_ (wp_updateEncoding h.dinv)
-      rintro d' w' ⟨hd, haf, hp, hbuf, hn⟩
-      have hq := QInv_of_update h hd hp hbuf
-      have := wp_prSkepSolve fuel hq (by rw [haf, hp]) (by rw [hn, hbuf]) (l := l) (id := id) (by rw [hp]; exact hl)
-      rw [hp] at this
-      exact this
-  refine wp_mono _ _ _ _ ?_ key
+  refine wp_mono _ _ _ _ ?_ (wp_prSkepQuery_gen fuel h hl (Or.inl trivial))
   rintro r w' ⟨h1, h2, h3⟩
   exact ⟨h1, h1.dinv.w0.2, h2, h3⟩
 
